@@ -79,6 +79,7 @@ type Outcome struct {
 	Feature    string // "" = the property holds for this run
 	What       string
 	ErrDropped bool
+	NeedsFF    bool // the verdict depends on the fault-free output
 	CountOnly  bool // replay material dropped (more than 3 of this feature in the unit)
 }
 
@@ -96,9 +97,16 @@ func (u *Unit) run(p Plan) *Outcome {
 		FirstBad: w.firstBad, AfterBad: w.afterBad}
 	o.Site = u.siteAt(w.firstBad)
 	failed := w.firstBad >= 0
-	isPrefix := bytes.HasPrefix(u.ffOut, w.accepted)
-	// the failure of the first failed write was not propagated if the
-	// interpreter kept writing afterwards or returned nil
+	// (2) is judged on the bytes accepted until the writer failed: for the
+	// sticky writers (dead, cap) that is everything they ever accept; what a
+	// recovering writer accepts after its failure is not judged (whether the
+	// property speaks about it is open to interpretation - a render that
+	// keeps writing after a failed write is caught by (1) instead)
+	before := w.accepted
+	if failed {
+		before = w.accepted[:w.atFail]
+	}
+	isPrefix := bytes.HasPrefix(u.ffOut, before)
 	o.ErrDropped = failed && (w.afterBad > 0 || err == nil)
 	switch {
 	case pan:
@@ -107,13 +115,15 @@ func (u *Unit) run(p Plan) *Outcome {
 	case failed && err == nil:
 		o.Feature = o.Site + "-write-error-dropped"
 		o.What = fmt.Sprintf("write call %d (%s) failed but the render returned nil", w.firstBad, o.Site)
-	case !isPrefix && o.ErrDropped:
-		o.Feature = o.Site + "-write-error-dropped"
-		o.What = fmt.Sprintf("write call %d (%s) failed, the render went on writing (%d more calls): accepted bytes are not a prefix of the fault-free output", w.firstBad, o.Site, w.afterBad)
 	case !isPrefix:
+		o.NeedsFF = true
 		o.Feature = o.Site + "-accepted-not-prefix"
+		if !failed {
+			o.Feature = "accepted-not-prefix"
+		}
 		o.What = "accepted bytes are not a prefix of the fault-free output"
 	case err == nil && !bytes.Equal(w.accepted, u.ffOut):
+		o.NeedsFF = true
 		o.Feature = "nil-but-incomplete"
 		o.What = "nil returned although not every byte of the fault-free output was accepted"
 	}
@@ -258,6 +268,20 @@ func (u *Unit) enumerate(seed int64, reached func(Plan)) *unitResult {
 			}
 			res.violations = append(res.violations, o)
 		}
+	}
+	// a verdict that rests on the fault-free output needs that output to be
+	// stable: render fault-free once more
+	for _, o := range res.violations {
+		if !o.NeedsFF {
+			continue
+		}
+		w := &recWriter{}
+		u.render(w)
+		if !bytes.Equal(w.out, u.ffOut) {
+			res.unstable = true
+			res.violations = nil
+		}
+		break
 	}
 	return res
 }
